@@ -155,7 +155,26 @@ pub fn check_point(p: &Pt, cx: &mut Cx) {
             let (y_curve, slope) = curve(p, p.offer);
             let delta = b(2) + b(2) * slope;
             let left = b(p.ask_pool.saturating_sub(gross));
-            cx.check("swap.pool_keeps_curve_reserve_up_to_dust", left + delta >= y_curve, || {
+            // known-finding class: the pair solves the curve at the ASK asset's precision (D and the offer reserve are
+            // truncated to the ask asset's decimals). When the offer asset has more decimals, one ask-precision unit of
+            // rounding on the offer side moves the ask side by the curve's slope in whole-token terms; a shortfall within
+            // 2 + 2 * that slope (in ask base units) is attributed to this finding, anything larger is a new violation
+            let shortfall = y_curve.saturating_sub(left);
+            let sig = if p.dec.0 > p.dec.1 {
+                let xn = norm(p.offer_pool, p.dec.0);
+                let yn = norm(p.ask_pool, p.dec.1);
+                let unit_a = pow10(NORM_DEC - p.dec.1 as u32);
+                let d = stable_d(p.amp, &[xn, yn]);
+                let coarse = (yn.saturating_sub(stable_y(p.amp, d, &[xn + unit_a])) + unit_a - U1024::one()) / unit_a;
+                if shortfall <= b(2) + b(2) * coarse.max(U1024::one()) {
+                    "ask-precision-math"
+                } else {
+                    ""
+                }
+            } else {
+                ""
+            };
+            cx.check_sig("swap.pool_keeps_curve_reserve_up_to_dust", sig, left + delta >= y_curve, || {
                 format!("ask reserve after swap {} < curve point {} - dust {} (slope {}), gross out {}", left, y_curve, delta, slope, gross)
             });
             // proceeds do not decrease when the offer grows (next larger offers)
